@@ -2,6 +2,18 @@
 use crate::common::*;
 use crate::pkggen::*;
 
+/// the input through a temporary file and `PackageMetadata::open`: equal to what `parse` returned for the bytes?
+fn opened_equals(bytes: &[u8], m: &rpm::PackageMetadata) -> bool {
+    static N: std::sync::atomic::AtomicU64 = std::sync::atomic::AtomicU64::new(0);
+    let path = std::env::temp_dir().join(format!("rpmverif-c01-{}-{}.rpm", std::process::id(), N.fetch_add(1, std::sync::atomic::Ordering::Relaxed)));
+    if std::fs::write(&path, bytes).is_err() {
+        return false;
+    }
+    let r = rpm::PackageMetadata::open(&path);
+    let _ = std::fs::remove_file(&path);
+    matches!(r, Ok(ref o) if o == m)
+}
+
 /// observation for a package / metadata round trip
 fn roundtrip(bytes: &[u8], meta_only: bool) -> String {
     if meta_only {
@@ -17,7 +29,8 @@ fn roundtrip(bytes: &[u8], meta_only: bool) -> String {
             Ok(m2) => {
                 let mut w2 = Vec::new();
                 let _ = m2.write(&mut w2);
-                (m2 == m, w2 == w)
+                // `PackageMetadata::open` (file → BufReader → parse) on the same input must give the same value as `parse`
+                (m2 == m && opened_equals(bytes, &m), w2 == w)
             }
             Err(_) => (false, false),
         };
@@ -43,8 +56,35 @@ fn roundtrip(bytes: &[u8], meta_only: bool) -> String {
     }
 }
 
+/// round trip of a value changed in memory: the signature header cleared (`Header::clear`) or replaced by
+/// `Header::new_empty()` before writing
+fn roundtrip_variant(variant: &str, bytes: &[u8]) -> String {
+    let mut p = match rpm::Package::parse(&mut &bytes[..]) {
+        Ok(p) => p,
+        Err(_) => return "err".into(),
+    };
+    match variant {
+        "clear" => p.metadata.signature.clear(),
+        _ => p.metadata.signature = rpm::Header::<rpm::IndexSignatureTag>::new_empty(),
+    }
+    let mut w = Vec::new();
+    if p.write(&mut w).is_err() {
+        return "err-write".into();
+    }
+    let (re, rw) = match rpm::Package::parse(&mut &w[..]) {
+        Ok(p2) => {
+            let mut w2 = Vec::new();
+            let _ = p2.write(&mut w2);
+            (p2.metadata == p.metadata && p2.content == p.content, w2 == w)
+        }
+        Err(_) => (false, false),
+    };
+    format!("ok w={:016x} len={} re={} rw={}", fnv(&w), w.len(), re, rw)
+}
+
 pub fn eval(op: &str, a: &[&str]) -> Option<String> {
     match op {
+        "pkgrtv" => Some(roundtrip_variant(a[0], &arg_bytes(a[1]))),
         "pkgrt" => Some(roundtrip(&arg_bytes(a[0]), false)),
         "metart" => Some(roundtrip(&arg_bytes(a[0]), true)),
         _ => None,
@@ -58,6 +98,8 @@ pub fn gen(ctx: &mut Ctx) {
         for p in asset_paths() {
             ctx.req(&format!("pkgrt @{}", p.display()));
             ctx.req(&format!("metart @{}", p.display()));
+            ctx.req(&format!("pkgrtv clear @{}", p.display()));
+            ctx.req(&format!("pkgrtv newempty @{}", p.display()));
         }
         if let Ok(d) = std::fs::read_dir("/repo/test_assets/fixture_packages") {
             let mut v: Vec<_> = d.filter_map(|e| e.ok()).map(|e| e.path()).collect();
@@ -99,5 +141,9 @@ pub fn gen(ctx: &mut Ctx) {
         }
         let op = if i % 5 == 4 { "metart" } else { "pkgrt" };
         ctx.req(&format!("{} {}", op, hx(&bytes)));
+        // values changed in memory before writing: cleared / fresh signature header (C01.cleared_fixpoint)
+        if i % 20 == 0 {
+            ctx.req(&format!("pkgrtv {} {}", if i % 40 == 0 { "clear" } else { "newempty" }, hx(&bytes)));
+        }
     }
 }
